@@ -197,6 +197,10 @@ func (lib *SpecLib) loadContractFile(path, pkgPath string) error {
 			return fmt.Errorf("%s:%d: %v (in %q)", path, it.line, err, it.text)
 		}
 		switch kw {
+		case "package":
+			// spec libraries: contracts for the named (dependency) package follow
+			pkgPath = strings.TrimSpace(rest)
+			cur = nil
 		case "func":
 			key := strings.TrimSpace(rest)
 			cur = &Contract{Key: key, PkgPath: pkgPath, File: path, Line: it.line}
@@ -336,6 +340,22 @@ func (lib *SpecLib) loadContractFile(path, pkgPath string) error {
 				default:
 					return fail(fmt.Errorf("unknown loop clause %q", sub))
 				}
+			case "callsite":
+				// callsite <callee name> requires <expr over the callee's parameter names>
+				f := strings.Fields(rest)
+				if len(f) < 3 || f[1] != "requires" {
+					return fail(fmt.Errorf("callsite <name> requires <expr>"))
+				}
+				cl.Kind = "callsite"
+				cl.Label = f[0]
+				cl.Text = strings.TrimSpace(strings.TrimPrefix(strings.TrimSpace(strings.TrimPrefix(strings.TrimSpace(rest), f[0])), "requires"))
+				e, err := parseCExpr(cl.Text)
+				if err != nil {
+					return fail(err)
+				}
+				cl.Expr = e
+				cur.Clauses = append(cur.Clauses, cl)
+				continue
 			case "preserves":
 				// preserves T1, T2: with `modifies everything`, field heaps of these struct types keep their values
 				for _, part := range splitTopLevel(rest, ',') {
@@ -378,7 +398,7 @@ func (lib *SpecLib) loadContractFile(path, pkgPath string) error {
 	return nil
 }
 
-var clauseKeywords = map[string]bool{"iterator": true, "iter": true, "preserves": true, "functype": true, "label": true, "captures": true, "func": true, "pred": true, "specfunc": true, "axiom": true, "lemma": true,
+var clauseKeywords = map[string]bool{"package": true, "callsite": true, "iterator": true, "iter": true, "preserves": true, "functype": true, "label": true, "captures": true, "func": true, "pred": true, "specfunc": true, "axiom": true, "lemma": true,
 	"requires": true, "ensures": true, "modifies": true, "loop": true, "floats": true, "may_panic": true,
 	"inline": true, "trusted": true, "pure": true, "property": true, "assume": true, "nosafety": true}
 
